@@ -253,6 +253,23 @@ impl Space for TimeRound {
                 let got = call(|| dt.to_ixdtf_string(to_string_opts(p, mode), DisplayCalendar::Auto));
                 let (rd, rt) = (day + (r / NS_PER_DAY) as i64, r % NS_PER_DAY);
                 out.lockstep("PlainDateTime::to_ixdtf_string", &Ok((rd, rt, want_digits)), &got, |m, s| parse_dt_text(s) == Some(*m), attrs);
+                // a smallest unit given next to a digit count: the unit decides, the digit count is ignored
+                if inc.n == 1 {
+                    let unit = match inc.unit {
+                        u if u == r3::T_MINUTE => Some(Unit::Minute),
+                        u if u == r3::T_SECOND => Some(Unit::Second),
+                        u if u == r3::T_MS => Some(Unit::Millisecond),
+                        u if u == r3::T_US => Some(Unit::Microsecond),
+                        u if u == r3::T_NS => Some(Unit::Nanosecond),
+                        _ => None,
+                    };
+                    if let Some(unit) = unit {
+                        for k in [1u8, 2, 4, 8] {
+                            let got = call(|| t.to_ixdtf_string(ToStringRoundingOptions { precision: Precision::Digit(k), smallest_unit: Some(unit), rounding_mode: Some(imode(mode)) }));
+                            out.lockstep("PlainTime::to_ixdtf_string(smallest unit and digit count)", &Ok((r % NS_PER_DAY, want_digits)), &got, |m, s| parse_time_text(s) == Some(*m), attrs);
+                        }
+                    }
+                }
                 // the same value as an instant printed in a zone (UTC as a fixed offset: reading = instant)
                 let inst = temporal_rs::Instant::try_new(day as i128 * NS_PER_DAY + v).expect("instant");
                 let utc = temporal_rs::TimeZone::try_from_str("+00:00").expect("zone");
